@@ -141,6 +141,18 @@ func (e *Endpoint) SetIdle() {
 	e.p.mu.Unlock()
 }
 
+// SetIdleTemp marks/unmarks the OTHER side as having nothing more to send for now, so that a
+// Read on this endpoint with an empty buffer reports ErrStalled instead of blocking (used by
+// single-goroutine exchanges: write on one end, then read on the other).
+func (e *Endpoint) SetIdleTemp(on bool) {
+	e.p.mu.Lock()
+	e.other.idle = on
+	if !on {
+		e.p.stalled = false
+	}
+	e.p.mu.Unlock()
+}
+
 // Closed reports whether this side was closed.
 func (e *Endpoint) Closed() bool {
 	e.p.mu.Lock()
